@@ -72,6 +72,10 @@ def run(ctx: Ctx) -> None:
                         "link (the directory holding the entries of longer paths is not a path)")
     n19 = S.reads_after_presence(ctx, v, "C08.R19")
     rep.floor("C08.R19", n19, 4)
+    rep.rule("C08.R22", "a committed path resolves to its key regardless of the other paths of the same call: the per-path locals of the loops of sync_paths / fetch_paths are assigned on "
+                        "every path of the body before they are read (no state carried from one path to the next)")
+    n22 = S.per_path_state_is_fresh(ctx, "C08.R22")
+    rep.floor("C08.R22", n22, 15)
     rep.rule("C08.R20", "a committed path resolves whatever other paths are committed before or after: the entry of a path does not take the name of a directory that the entry of a "
                         "longer path needs (the dictionary model holds '/a' and '/a/b' together)")
     n20 = S.entries_apart_from_directories(ctx, v, "C08.R20")
